@@ -219,3 +219,33 @@ def coq_sel_case(c, caps, dsets, mode, seed, ctl0, w, lane, s0, s1, s2, extra):
 def strip_cases_file(cases):
     body = ';\n '.join(cases)
     return STRIP_HEADER + f'Definition results : list (list bool) := [\n {body}].\nEval vm_compute in (wline_failing results).\n'
+
+
+# ---- end-to-end statement at memory level (Proofs/WaveSimGlue.v wavesim_model_correct): hypotheses evaluated per case, the theorem's
+# ---- prediction (capture of the UNSTRIPPED line-level waveforms, line-level wacc) compared with what the implementation delivered ------
+GLUE_HEADER = HEADER.replace('Model.WaveSimModel Model.Corr', 'Model.WaveSimModel Model.Corr Model.WaveOps Model.WaveAcc Model.WaveGlue Proofs.WaveSimGlue')
+GLUE_CHECKS = ['hypotheses of wavesim_model_correct hold (wglue_hyps_b; false = outside the proved domain, not a failure)',
+               'prediction of wavesim_model_correct (capture of the unstripped line-level waveform of the line feeding each s_node) = s[3..10] of the implementation',
+               'line-level wacc over build_ops c false = abuf of the implementation (strip_forks off)']
+
+
+def coq_glue_case(c, caps, strip, delays, w, lane, s0, s1, s2, extra, tcap, a_ctrl=None):
+    """wglue_case: independent of c_reuse by construction (the prediction does not mention it); w is the implementation's run."""
+    capl, svals, ex = _stim_literals(c, caps, lane, s0, s1, s2, extra)
+    ops = np.asarray(w.ops)
+    if a_ctrl is None:
+        rows = ops[:, 6:9].tolist()
+    else:
+        rows = [[int(v) for v in a_ctrl[o[1]]] if o[1] < len(a_ctrl) else [-1, 0, 0] for o in ops]
+    actrl = cg.coq_list(rows, lambda r: f'({cg.coq_Z(r[0])}, {cg.coq_Z(r[1])}, {cg.coq_Z(r[2])})')
+    _, ab, capt = lane_expected(w, lane)
+    cp = cg.coq_list(capt, lambda x: 'None' if x is None else
+                     f'Some ({b(x[0])}, {coq_time(x[1])}, {coq_time(x[2])}, {b(x[3])}, {b(x[4])}, {b(x[5])})')
+    tc = 'MaxInf' if tcap is None else coq_time(int(tcap))
+    return (f'wglue_case {cg.coq_netlist(c)} {capl} {b(strip)} {cg.coq_list(list(delays), coq_dtab)} {actrl} {max(w.abuf_len, 0)} '
+            f'{svals} {ex} {tc} {cp} {cg.coq_list(ab, cg.coq_Z)}')
+
+
+def glue_cases_file(cases):
+    body = ';\n '.join(cases)
+    return GLUE_HEADER + f'Definition results : list (list bool) := [\n {body}].\nEval vm_compute in (wline_failing results).\n'
